@@ -469,42 +469,15 @@ H("C08", "mpq", _P, "thorough", "C08.b the digest checks accept exactly when the
   abstraction_stubs=["md5::compress"], timeout=2400)
 
 # ------------------------------------------------------------------------------- C02.d reference writer -> real reader
-H("C02", "mpq", _BP, "thorough", "C02.d files laid out per the published format by a reference writer are read bit-identically: stored file (single-unit or not), compressed one-sector file with a sector offset table",
-  ["c02d_reference_one_sector_compressed", "c02d_reference_stored_file"],
-  ["archive::Archive::read_file", "archive::Archive::read_sectored_file", "archive::Archive::find_file", "tables::HashTable::find_file"],
-  "6 content bytes and the codec payload symbolic; single-unit flag symbolic for the stored file", "6-byte files at archive offset 32",
-  stubs=[FMT, MEMFILE, "compression::decompress -> abstract codec (inverts the prepared payload, rejects everything else)"],
-  abstraction_stubs=["decompress"], timeout=2400)
-
-H("C10", "mpq", _SG, "thorough", "C10.b signature window crossing a 64 KiB digest-unit boundary: exactly the window is zeroed, the bytes behind it stay covered",
-  ["c10b_digest_window_straddles_unit_boundary"], ["crypto::signature::calculate_mpq_hash_md5"],
-  "65664 signed bytes: 192 symbolic bytes around offset 65536 (rest concrete), window [65500, 65572)", "one boundary crossing",
-  stubs=[FMT, "md5::compress::compress -> tap recording the three 64-byte blocks around the boundary"], timeout=2400)
-
-# ------------------------------------------------------------------------------- C10.c attributes
-_AT = "verif_kani_attributes"
-H("C10", "mpq", _AT, "quick", "C10.c (attributes) write->parse keeps every per-file CRC32 / timestamp / MD5 / patch bit; size == header + arrays",
-  ["c10c_attributes_roundtrip_crc", "c10c_attributes_roundtrip_crc_md5", "c10c_attributes_roundtrip_all", "c10c_attributes_roundtrip_time_patch"],
-  ["special_files::attributes::Attributes::{to_bytes,parse}"], "2 files, all attribute values symbolic; flag combination concrete per harness (0x1, 0x5, 0xF, 0xA)",
-  "2 files", stubs=[FMT], timeout=900)
-H("C10", "mpq", _AT, "quick", "canary", ["c10c_canary"], ["special_files::attributes::Attributes::to_bytes"], "vacuity twin", "-", expect="canary", stubs=[FMT])
-H("C05", "mpq", _AT, "quick", "C05.mpq.5 (attributes) parser is total on hostile content", ["c05_attributes_parse_total"],
-  ["special_files::attributes::Attributes::parse"], "24 bytes symbolic behind the version word, block counts 0, 1, 2", "24-byte file, <= 2 blocks", stubs=[FMT], timeout=900)
-
-# c02d_builder_to_reference_ms_* (builder -> reference reader of the multi-sector layout) are NOT registered:
-# 20 min time-out / memory cap on this machine (512-byte sector copies + a data-dependent raw/compressed
-# decision per sector); the sector layout of compressed multi-sector files stays outside the C02 claim.
-
-H("C10", "mpq", _BP, "thorough", "C10.d acceptance implies the checksum matches: a data byte altered and the stored checksum replaced by arbitrary bytes - whenever the read succeeds the stored checksum is the Adler-32 of what is returned",
-  ["c10d_accept_implies_checksum_matches"], _pathfns + ["adler2::adler32_slice"],
-  "2-byte file content, fault offset/mask and 4 replacement checksum bytes symbolic", "2-byte single-unit file; reference Adler-32 in closed form",
-  stubs=[FMT, MEMFILE], timeout=2400)
-
-H("C02", "mpq", _BP, "thorough", "C02.d multi-sector compressed file, writer only: the stored size equals the bytes written and the sector offset table (decrypted with the format's key-1) starts behind itself and ends at the stored size",
-  ["c02d_ms_stored_size_codec", "c02d_ms_stored_size_enc_codec", "c02d_ms_stored_size_enc_fix_codec"],
-  ["builder::ArchiveBuilder::write_file", "builder::ArchiveBuilder::calculate_file_key", "builder::ArchiveBuilder::encrypt_data_u32"],
-  "513-byte file (5 symbolic tail bytes), codec payload symbolic", "2 sectors",
-  stubs=[FMT, "compression::compress -> abstract codec"], abstraction_stubs=["compress"], timeout=2400)
+H("C02", "mpq", _BP, "quick", "C02.d a stored (uncompressed, unencrypted) file laid out per the published format by a reference writer is read bit-identically, single-unit or not",
+  ["c02d_reference_stored_file"],
+  ["archive::Archive::read_file", "archive::Archive::find_file", "tables::HashTable::find_file"],
+  "6 content bytes symbolic; single-unit flag symbolic", "6-byte file at archive offset 32",
+  stubs=[FMT, MEMFILE], timeout=900)
+# NOT registered (do not finish on the unchanged tree): c02d_reference_one_sector_compressed (the reader's sectored path
+# exceeds 20 GB; it only "worked" against a seeded change that made the reader skip that path), c02d_ms_stored_size_* and
+# c02d_builder_to_reference_ms_* (multi-sector writer with the abstract codec: 40 min time-out).  The sector layout of
+# compressed multi-sector files is outside the C02 claim.
 
 
 # =============================================================================== per-property fragments
